@@ -294,7 +294,15 @@ func inlineRound(pkgs []*packages.Package, overlay map[string][]byte, testIdents
 			continue
 		}
 		sites := uses[obj]
-		if len(sites) == 0 || len(sites) > maxSitesPerHelper {
+		limit := maxSitesPerHelper
+		if d.fd.Body != nil && len(d.fd.Body.List) <= 4 {
+			limit = 4 * maxSitesPerHelper // a tiny helper (a setter, a reset) may be used all over a function
+		}
+		if len(sites) == 0 {
+			continue
+		}
+		if len(sites) > limit {
+			log = append(log, fmt.Sprintf("not inlined (%d call sites): %s", len(sites), key))
 			continue
 		}
 		okAll := true
